@@ -42,7 +42,9 @@ RULE = ('a case = a generated host program (nested calls across modules, if/else
         'real SpanResult and LogActionResult among them), SpanResult.process + SpanActionCallback.process (0-6 spans '
         'whose close() fails with an Exception anywhere or a BaseException at the last position), '
         'DeferredSnapshotActionCallback.process per event kind over recording stand-ins, _is_deferred per stage value; '
-        'non-trivial there = a failing item is followed by another item. Non-trivial = at least two contexts opened on some thread and one of them nested in or '
+        'non-trivial there = a failing item is followed by another item; every third cb case is of the separate labelled '
+        'stream cb-kf-base (known finding C15/baseexception-skips-rest): a BaseException in the MIDDLE of the spans / '
+        'results. Non-trivial = at least two contexts opened on some thread and one of them nested in or '
         'overlapping another. Distinct = distinct canonical JSON.')
 TRUSTED = ['CPython 3.12 trace-event discipline (the model and the oracle consume the recorded reference stream; the '
            'invocation-tree flattening of the model is compared with the recorded stream on every case)',
@@ -183,7 +185,8 @@ def known_replays():
                          'completed at the caught exception event and attaches the ValueError, the return value is never '
                          'attached', caught_case()),
             (FID_STACK, 'method span on f and line span on f\'s last line: at f\'s return only the top context is '
-                        'examined, the method span is never closed and stays pending on the thread', stack_case())]
+                        'examined, the method span is never closed and stays pending on the thread', stack_case())] + \
+        cbx.known_replays()
 
 
 # --------------------------------------------------------------------------------------- generation
@@ -445,7 +448,7 @@ def gen(rng, tier):
             yield tlx.gen_case(rng, tier)
             continue
         if j % 14 == 0:
-            yield cbx.gen_case(rng, tier)
+            yield cbx.gen_base_case(rng, tier) if (j // 14) % 3 == 2 else cbx.gen_case(rng, tier)
             continue
         k += 1
         if k % 10 == 0:
@@ -692,7 +695,10 @@ def known_finding(case, obs):
     context is not an instance and is judged normally), resp. NoStack (some invocation
     reaches an own exception event / the end of its body with both its call-opened and a line-opened context
     pending).  The case is an instance only if every violated thread is one."""
-    if sub(case) or 'raised' in obs or 'ref' not in obs:
+    if sub(case):
+        kf = getattr(sub(case), 'known_finding', None)
+        return kf(case, obs) if kf else None
+    if 'raised' in obs or 'ref' not in obs:
         return None
     flags, strict_only = {}, {}
     for t in threads_of(case):
@@ -771,6 +777,7 @@ def compare(case, obs, resp):
     if not run.get('global_agrees'):
         d.append('model: the interleaved machine disagrees with the per-thread runs')
     if not run.get('tl_agrees'):
+        # a self-check of the driver (model vs model: it is the proven model lemma), not part of the tie
         d.append('model: the handler over the translated ThreadLocal store (HandlerTL.runGTL) disagrees with runG '
                  '(c15_handler_over_thread_local)')
     flags = thread_flags(case, obs)
